@@ -139,7 +139,7 @@ def run(res, tier, seed):
     for fmt in ("gac_klm", "gac_pod", "lac_klm", "lac_pod"):
         fam = l1b.FMT[fmt]["family"]
         for cond in ("backwards", "backwards-far", "header-hours-off", "header-year0", "header-year9999", "header-day0",
-                     "header-day400", "header-ms-big"):
+                     "header-day400", "header-ms-big", "header-beyond-9999"):
             p = tg.clean_pass(rng, fmt, rng.choice([5, 30, 120]), "plain")
             hx = None
             if cond.startswith("backwards"):
@@ -158,11 +158,17 @@ def run(res, tier, seed):
             elif fam == "klm":
                 hx = {"header-year0": {"start_of_data_set_year": 0}, "header-year9999": {"start_of_data_set_year": rng.choice([9999, 10000, 65535])},
                       "header-day0": {"start_of_data_set_day_of_year": 0}, "header-day400": {"start_of_data_set_day_of_year": rng.choice([400, 65535])},
-                      "header-ms-big": {"start_of_data_set_utc_time_of_day": 4294967295}}[cond]
+                      "header-ms-big": {"start_of_data_set_utc_time_of_day": 4294967295},
+                      # year field in range, but day / millisecond carry the date past 9999-12-31
+                      "header-beyond-9999": rng.choice([{"start_of_data_set_year": 9999, "start_of_data_set_day_of_year": 366},
+                                                        {"start_of_data_set_year": 9999, "start_of_data_set_day_of_year": 365,
+                                                         "start_of_data_set_utc_time_of_day": 90000000},
+                                                        {"start_of_data_set_year": 9900, "start_of_data_set_day_of_year": 65535}])}[cond]
             else:
                 hx = {"header-year0": {"start_time": [0, 0, 0]}, "header-year9999": {"start_time": [65535, 65535, 65535]},
                       "header-day0": {"start_time": [(95 << 9) | 0, 0, 0]}, "header-day400": {"start_time": [(95 << 9) | 400, 0, 0]},
-                      "header-ms-big": {"start_time": [(95 << 9) | 100, 2047, 65535]}}[cond]
+                      "header-ms-big": {"start_time": [(95 << 9) | 100, 2047, 65535]},
+                      "header-beyond-9999": {"start_time": [(75 << 9) | 511, 2047, 65535]}}[cond]
             ctx = dict(fmt=fmt, condition=cond, n=len(p["nums"]), numbers=p["nums"][:12], header_fields=hx, seed=seed)
             try:
                 data = tg.build(p, header_fields=hx)
